@@ -18,8 +18,9 @@ EXTENDS Cascade, Json, IOUtils
 
 Traces == JsonDeserialize(IOEnv.TRACE_FILE)
 
-VARIABLES tid, l, viol
-tvars == <<c, x, g, tid, l, viol>>
+VARIABLES tid, l, viol,
+          rep    \* what the controller must have reported to the gateway since the last end of a wait (see "reporting" below)
+tvars == <<c, x, g, tid, l, viol, rep>>
 
 T == Traces[tid]
 E == T[l]
@@ -89,16 +90,44 @@ BadInv ==
 Tag(S) == {ToString(l) \o ":" \o E.ev \o ":" \o n : n \in S}
 
 Adv == l' = l + 1 /\ tid' = tid
+
+(***************************************************************************)
+(* Reporting to the gateway (cascade.controller.report.Reporter, called    *)
+(* from controller.notify and controller.impl.run): one progress report    *)
+(* per completed task carrying 1 - remaining/total (two decimals of a      *)
+(* percentage), one result report per payload handed to the controller,    *)
+(* carrying the bytes that decode to the sequential value, one shutdown     *)
+(* report at the end.  `rep` is the sequence expected since the last        *)
+(* `endwait`; the recorder logs what the real Reporter pushed.             *)
+(***************************************************************************)
+NTask == Cardinality(Task)
+Abs(i) == IF i < 0 THEN 0 - i ELSE i
+\* bp (basis points, as logged) is the percentage of `done` out of NTask rounded to two decimals
+RoundedTo(bp, done) == 2 * Abs(bp * NTask - done * 10000) <= NTask
+RepMatches(want, got) ==
+  /\ want.k = got.k
+  /\ want.k = "result" => want.d = DSof(got.d)
+  /\ want.k = "progress" => RoundedTo(got.bp, want.done)
+ReportClauses(want, got) ==
+  LET res(sq) == SelectSeq(sq, LAMBDA r : r.k = "result")
+      wr == res(want)   gr == res(got)
+  IN (IF \E i \in DOMAIN gr : ~gr[i].ok THEN {"uploaded_result_differs_from_sequential"} ELSE {})
+  \cup (IF Len(wr) = Len(gr) /\ \A i \in DOMAIN wr : wr[i].d = DSof(gr[i].d) THEN {} ELSE {"result_uploads_differ"})
+  \cup (IF Len(want) = Len(got) /\ \A i \in DOMAIN want : RepMatches(want[i], got[i]) THEN {} ELSE {"I_reports_differ"})
+  \cup (IF \A i \in DOMAIN got : got[i].meta THEN {} ELSE {"I_report_envelope"})
+Reported(want) == IF "reports" \in DOMAIN E THEN ReportClauses(want, E.reports) ELSE {}
 \* a controller step: adopt the implementation's projection, record guards + differences
-CtrlStep(n, guards) ==
+CtrlStepR(n, guards, r) ==
   LET is == Impl(n.c) IN
-  /\ c' = is /\ x' = n.x /\ g' = n.g /\ Adv
+  /\ c' = is /\ x' = n.x /\ g' = n.g /\ Adv /\ rep' = r
   /\ viol' = viol \cup Tag(guards \cup Diff(n.c, is)) \cup Tag(n.g.flags \ g.flags) \cup Tag(BadInv')
+CtrlStep(n, guards) == CtrlStepR(n, guards, rep)
 \* a step with no projection
-PlainStep(n, guards) ==
-  /\ c' = n.c /\ x' = n.x /\ g' = n.g /\ Adv
+PlainStepR(n, guards, r) ==
+  /\ c' = n.c /\ x' = n.x /\ g' = n.g /\ Adv /\ rep' = r
   /\ viol' = viol \cup Tag(guards) \cup Tag(n.g.flags \ g.flags) \cup Tag(BadInv')
-Skip(names) == UNCHANGED <<c, x, g>> /\ Adv /\ viol' = viol \cup Tag(names)
+PlainStep(n, guards) == PlainStepR(n, guards, rep)
+Skip(names) == UNCHANGED <<c, x, g, rep>> /\ Adv /\ viol' = viol \cup Tag(names)
 Same == Pack(c, x, g)
 
 SilentPending == c.pc = "wait" /\ ~HasAwaitable(c)
@@ -141,18 +170,20 @@ TRecvEvent ==
   /\ IF E.h \notin Host \/ x.events[E.h] = <<>> THEN Skip({"struct_no_such_event"})
      ELSE LET e == Head(x.events[E.h]) IN
           IF e.d # DSof(E.d) \/ e.w # E.w \/ e.x # E.x THEN Skip({"struct_event_differs"})
-          ELSE PlainStep(RecvEventNext(E.h), RecvGuards)
+          ELSE LET n == RecvEventNext(E.h) IN
+               PlainStepR(n, RecvGuards, IF n.c.done # c.done THEN Append(rep, [k |-> "progress", done |-> Cardinality(n.c.done), d |-> <<"", "">>])
+                                         ELSE rep)
 TRecvPayload ==
   /\ Ev("recvpayload")
   /\ LET p == <<DSof(E.d), E.src>> IN
      IF p \notin x.payloads THEN Skip({"struct_no_such_payload"})
-     ELSE PlainStep(RecvPayloadNext(p), RecvGuards)
-TEndWait == Ev("endwait") /\ CtrlStep(EndWaitNext, EndWaitGuards)
+     ELSE PlainStepR(RecvPayloadNext(p), RecvGuards, Append(rep, [k |-> "result", done |-> 0, d |-> p[1]]))
+TEndWait == Ev("endwait") /\ CtrlStepR(EndWaitNext, EndWaitGuards \cup Reported(rep), <<>>)
 \* the loop condition evaluated without a wait (nothing awaitable) leaves no event
 TSilent ==
   /\ l <= Len(T) /\ SilentPending /\ E.ev \notin {"recvevent", "recvpayload", "endwait"}
   /\ LET n == EndWaitNext IN
-     /\ c' = n.c /\ x' = n.x /\ g' = n.g /\ UNCHANGED <<l, tid>>
+     /\ c' = n.c /\ x' = n.x /\ g' = n.g /\ UNCHANGED <<l, tid, rep>>
      /\ viol' = viol \cup Tag(n.g.flags \ g.flags)
 
 THostDeliver ==
@@ -188,7 +219,8 @@ TDone ==
        \cup (IF E.missing = <<>> THEN {} ELSE {"requested_output_missing"})
        \cup (IF E.shutdown THEN {} ELSE {"no_shutdown"})
        \cup (IF E.remaining = 0 THEN {} ELSE {"remaining_not_zero"})
-       \cup (IF Ext \subseteq c.fetched THEN {} ELSE {"DeliveredAll"}))
+       \cup (IF Ext \subseteq c.fetched THEN {} ELSE {"DeliveredAll"})
+       \cup Reported(<<[k |-> "shutdown", done |-> 0, d |-> <<"", "">>]>>))
 \* a run that does not end normally never hands the requested datasets to its caller
 TAbnormal ==
   /\ l <= Len(T) /\ E.ev \in {"crash", "spin", "deadlock", "taskfailure", "abort"}
@@ -200,9 +232,9 @@ TUnknown == l <= Len(T) /\ E.ev \notin Known /\ Skip({"struct_unknown_event"})
 TFinish ==
   /\ l = Len(T) + 1
   /\ PrintT("R|" \o ToString(tid) \o "|" \o ToString(viol))
-  /\ l' = l + 1 /\ UNCHANGED <<c, x, g, tid, viol>>
+  /\ l' = l + 1 /\ UNCHANGED <<c, x, g, tid, viol, rep>>
 
-TInit == Init /\ tid \in 1..Len(Traces) /\ l = 1 /\ viol = {}
+TInit == Init /\ tid \in 1..Len(Traces) /\ l = 1 /\ viol = {} /\ rep = <<>>
 TNext == \/ TAssign \/ TStartMigrate \/ TMigrate \/ TPlan \/ TFlush \/ TRecvEvent \/ TRecvPayload \/ TEndWait \/ TSilent
          \/ THostDeliver \/ TTake \/ TPublish \/ TDataCmd \/ TStore \/ TShutdown \/ TDone \/ TAbnormal \/ TUnknown
          \/ TFinish
